@@ -110,6 +110,9 @@ fn check_bfs_pred<D: Order + OutNeighbors + Clone>(d: &D, m: &Model, src: &[usiz
     let items: Vec<(Option<usize>, usize)> = BfsPred::new(d, src.iter().copied()).take(4 * n + 4).collect();
     let items2: Vec<(Option<usize>, usize)> = BfsPred::new(d, src.iter().copied()).clone().take(4 * n + 4).collect();
     o.eq("BfsPred:clone-of-a-fresh-iterator", &items2, &items);
+    if n <= 24 && src.len() == 1 && m.size() % 6 == 1 {
+        crate::obs::iter_consistency(o, "BfsPred", || BfsPred::new(d, src.iter().copied()));
+    }
     let vs: Vec<usize> = items.iter().map(|x| x.1).collect();
     let lv = m.levels(src);
     c04::check_level_seq(o, "BfsPred", &vs, &lv);
